@@ -179,6 +179,9 @@ def list_targets(coredata: cdata.CoreData, builddata: build.Build, backend: back
             raise RuntimeError('The target object in `builddata.get_targets()` is not of type `build.Target`. Please file a bug with this error message.')
 
         outdir = get_target_dir(builddata.environment.coredata, target.get_builddir(), target.get_build_subdir())
+        if isinstance(target, build.CompileTarget):
+            # The outputs of a compile target are its objects: they are generated in the private directory.
+            outdir = backend.get_target_private_dir(target)
         t = {
             'name': target.get_basename(),
             'id': idname,
